@@ -137,7 +137,25 @@ func runHistory(rt *rapid.T, kind string, fixed bool) {
 	m := &machine{t: rt, store: mptkit.NewStore(kind), model: map[string][]byte{}}
 	defer m.store.Close()
 	m.version = int64(rapid.IntRange(0, 3).Draw(rt, "v0"))
-	m.mpt = mptkit.NewTrie(m.store.DB, m.version, nil)
+	var root util.Key
+	genesis := false
+	if lndb, ok := m.store.DB.(*util.LevelNodeDB); ok && gen.Chance(rt, 60, "genesis") {
+		// the lower level already holds state (a previous block), written at this version or the one before
+		g := mptkit.NewTrie(lndb.GetPrev(), m.version, nil)
+		ops := mptkit.GenOpsP(rt, m.model, &m.used, gen.Uniform(rt, 1, 8, "ngen"), 3, 20, "gen")
+		if err := mptkit.Apply(g, ops); err != nil {
+			rt.Fatalf("HARNESS: genesis %v: %v", ops, err)
+		}
+		for _, o := range ops {
+			m.hist = append(m.hist, op{Kind: "genesis-" + o.Kind, Path: o.Path, Val: o.Val})
+		}
+		root = g.GetRoot()
+		genesis = true
+		if gen.Chance(rt, 50, "nextversion") {
+			m.version++
+		}
+	}
+	m.mpt = mptkit.NewTrie(m.store.DB, m.version, root)
 	steps := gen.Uniform(rt, 6, 40, "steps")
 	maxBytes := gen.Pick(rt, []int{2, 3, 4, 8}, "maxBytes")
 	var tr traits
@@ -230,6 +248,7 @@ func runHistory(rt *rapid.T, kind string, fixed bool) {
 		}
 	}
 	add(fixed, "fixed-length-paths")
+	add(genesis, "lower-level-holds-genesis")
 	add(tr.prefixPair, "prefix-pair")
 	add(tr.deletePresent, "delete-present")
 	add(tr.absentPrefixDelete, "delete-absent-proper-prefix-of-key")
